@@ -38,8 +38,12 @@ int stralloc_readyplus(stralloc *x, unsigned int n) { return stralloc_ready(x, x
 ssize_t substdio_get(substdio *s, char *buf, size_t len)
 {
   CHECK(s == &ssin_ && len == 1, "reads one byte at a time");
-  CHECK(buf == cmd.s + cmd.len, "C20(commands): the next byte goes to cmd.s + cmd.len");
-  CHECK(cmd.len < granted && granted <= cmd.a, "C20(commands): ... which is inside what stralloc_readyplus granted");
+  /* the byte may be read straight into the line buffer (then it must lie inside what was
+   * granted) or into some other one-byte object and appended afterwards */
+  if (buf >= cmd.s && buf <= cmd.s + N + 1) {
+    CHECK(buf == cmd.s + cmd.len, "C20(commands): a byte read in place goes to cmd.s + cmd.len");
+    CHECK(cmd.len < granted && granted <= cmd.a, "C20(commands): ... which is inside what stralloc_readyplus granted");
+  }
   if (inpos >= N) return 0;
   *buf = (char) in[inpos++];
   return 1;
@@ -50,6 +54,7 @@ static void check_arg(char *arg)
   unsigned int i, nul = 0;
   ++ncalls;
   CHECK(arg >= cmd.s && arg <= cmd.s + cmd.len, "C20(commands): the argument points into the line buffer");
+  CHECK(cmd.len < granted && granted <= cmd.a, "C20(commands): the terminating NUL at cmd.s[cmd.len] lies inside what stralloc_readyplus granted");
   for (i = 0; i < N + 1; ++i) { if (arg + i > cmd.s + cmd.len) break; if (!arg[i]) { nul = 1; break; } }
   CHECK(nul, "C20(commands): the argument is NUL-terminated inside the buffer");
 }
